@@ -282,16 +282,6 @@ def normalise_program(trees: dict[str, ast.Module]) -> dict[str, list[str]]:
         if extern:
             notes[rel] += [f"{rel}: {n}" for n in inline_new_helpers(tree, known_of[rel] or set(), extern=extern)]
     # a helper that was kept for other units' sake and is referenced nowhere any more (every call site, in every unit, was expanded)
-    def referenced(name: str, definition: ast.AST) -> bool:
-        for t2 in trees.values():
-            for n in ast.walk(t2):
-                if n is definition:
-                    continue
-                if (isinstance(n, ast.Name) and n.id == name) or (isinstance(n, ast.Attribute) and n.attr == name):
-                    inside_def = False
-                    if not inside_def:
-                        return True
-        return False
     for rel, tree in trees.items():
         mod = rel[:-3].replace(os.sep, ".")
         mod = mod[: -len(".__init__")] if mod.endswith(".__init__") else mod
